@@ -298,6 +298,12 @@ func (v *storeView) enter(ctx context.Context, method string) error {
 		v.sim.sched.Logf("  store %s %s -> injected error", v.m.Name, method)
 		return errInjected
 	}
+	if op := opFrom(ctx); v.sim.opStoreFault(op, method) != 0 {
+		v.sim.count("fault.read." + method)
+		v.sim.count("fault.read.addressed-to-request")
+		v.sim.sched.Logf("  store %s %s (request %s) -> injected error", v.m.Name, method, op.Name)
+		return errInjected
+	}
 	return nil
 }
 
